@@ -18,6 +18,9 @@ ASSUMPTIONS = ["ref/xml_tokenizer.json reviewed (snapshot of the code after the 
 
 
 def run(ctx):
+    ctx.rule("R15.11", "= R03.16 for xml5ever, with U+0000 -> U+FFFD also for the character read in place of a skipped LF")
+    from . import tokrules as _tr11
+    ctx.guard("R15.11", "preprocessing/xml", lambda: _tr11.preprocess_transcription(ctx, "R15.11", "xml"))
     ctx.rule("R15.10", "= R03.15 for xml5ever: end() runs the machine over the queue before eof_step")
     from . import tokrules as _tr10
     ctx.guard("R15.10", "end-runs/xml", lambda: _tr10.end_runs_before_eof(ctx, "R15.10", "xml"))
